@@ -39,8 +39,45 @@ def run(chk):
     chk.floor('Expr variants with children', len(tg.variants_with_children('hir::Expr')), 15)
     X.apply(chk, fx, tr, FILE, 'C23-K4', EXCEPTIONS)
     shadow_rule(chk, fx, fn)
+    use_rule(chk, fx)
     return ('Visitor-completeness over OwnershipChecker::check_expr (same engine as C22). Decides "every use position is visited"; '
             'which positions move a value and scoping are not decided.'), {}
+
+
+def use_rule(chk, fx):
+    """every identifier use is looked up among the moved values, whatever the ownership of the position it stands in"""
+    from sa.kinds import vspec as VS
+    chk.rule('C23-use', 'OwnershipChecker::check_acc passes every identifier use through check_if_dropped on every path: the look-up is not inside a branch on the `ownership` of the '
+                        'position (Owned / Ref / RefMut), a by-mutable-reference use of a moved value is a use after move all the same')
+    f = fx.fn(FILE, 'OwnershipChecker::check_acc')
+    arm = None
+    for m in T.walk(f['body']):
+        if m.get('k') == 'Match':
+            for a in m['arms']:
+                if any(v.endswith('Accessor::Ident') for v in T.pat_variants(a['pat'])):
+                    arm = a
+    if not chk.need(arm is not None, 'check_acc: no arm for Accessor::Ident'):
+        return
+    calls = [c for c in T.calls(arm['b']) if c.get('k') == 'MCall' and c['n'] == 'check_if_dropped']
+    if not calls:
+        chk.bad('C23-use', 'OwnershipChecker::check_acc', 'no-lookup', 'the Ident arm of check_acc never calls check_if_dropped', FILE, arm['l'])
+        return
+    cond_on_ownership = False
+    for n, ctx in T.walk_ctx(arm['b']):
+        if any(n is c for c in calls):
+            for c in ctx:
+                if c[0] == 'if' and 'ownership' in T.show(c[1]):
+                    cond_on_ownership = True
+                if c[0] == 'arm' and 'ownership' in T.show(c[1]['x']):
+                    cond_on_ownership = True
+    body_fn = {'body': arm['b']}
+    always = VS.must_pass(body_fn, lambda n: n.get('k') == 'MCall' and n['n'] == 'check_if_dropped')
+    if always and not cond_on_ownership:
+        chk.ok('C23-use', 'Ident', sample='check_acc/Ident: check_if_dropped on every path')
+    else:
+        chk.bad('C23-use', 'OwnershipChecker::check_acc', 'conditional-lookup', 'the Ident arm of check_acc calls check_if_dropped only %s: an identifier in a position of the other '
+                'ownership kinds (e.g. an argument for a RefMut parameter) is not looked up among the moved values, so `w = v; append! v, 2` is accepted'
+                % ('under a test of `ownership`' if cond_on_ownership else 'on some paths'), FILE, arm['l'])
 
 
 def shadow_rule(chk, fx, check_expr_fn):
